@@ -13,7 +13,7 @@ PROP = {
     ],
     "streams": [
         {"name": "vmeq", "driver": "drv_lang",
-         "quick": {"n": 600}, "thorough": {"n": 8000, "seeds": 4}},
+         "quick": {"n": 900}, "thorough": {"n": 8000, "seeds": 4}},
         {"name": "peep", "driver": "drv_peep",
          "quick": {"n": 600}, "thorough": {"n": 20000, "seeds": 4}},
     ],
@@ -34,7 +34,16 @@ PROP = {
                   "nested in expressions, error outcomes of statements, ??, several parameters, L1/L2). Stream `vmeq`: every generated program runs on the interpreter, the VM and "
                   "the VM with peephole optimisation (hook runtime/verif_hooks.go) from fresh identical ledgers; result "
                   "value, error class and kind, logs and event count are compared with each other (Go-vs-Go, no model "
-                  "needed) and with the model for in-fragment programs.",
+                  "needed) and with the model for in-fragment programs. Generator families of `vmeq`: L0 and L1 statement / "
+                  "expression programs (half of them with the body of `main` inside a function expression, an inner function "
+                  "or a capturing closure - in /repo only closures and inner functions execute peephole-optimised code, "
+                  "named functions and methods are linked to a copy made before the pass), an iteration family (for / "
+                  "for-index / for over a reference / map / filter / forEachKey, nested iterations over the same container, "
+                  "mutations inside and after the inner iteration) and a closure-peephole family (windows the patterns "
+                  "match but decline - optional-, supertype- and path-typed constants - and rewritten windows in front of "
+                  "conditional expressions, if/else, loops, switch, ??, if-let). Stream `peep` feeds real instruction lists "
+                  "(named functions, methods, function expressions, inner functions) and synthetic lists (random tokens; "
+                  "structured lists of rewritten / declined windows with jumps to unit boundaries) to the Lean port.",
     "level_note": "proof (fragment) + CC; the real compiler is tied by behaviour (stream vmeq), the peephole port on real "
                   "instruction lists (stream peep).",
     "assumptions": ["muCadence fragment L0/L1 for the model comparison; the Go-vs-Go comparison covers whatever the generator emits"],
